@@ -8,7 +8,7 @@ import struct
 import zipfile
 
 BYTE_OPS = ["truncate", "truncate_tail", "bitflip", "byteset", "zero", "splice", "dup", "insert", "numbers", "head_only", "empty",
-            "append_junk", "stamp_twice", "copy_block", "picture_half_written"]
+            "append_junk", "stamp_twice", "copy_block", "picture_half_written", "jpeg_segment_length"]
 
 
 def _stamps(rng):
@@ -55,6 +55,23 @@ def byte_mutate(data: bytes, op: str, rng: random.Random, other: bytes = b"") ->
         blk = data[i:i + ln]
         j = rng.randrange(n)
         return data[:j] + blk + data[j:] if rng.random() < 0.5 else data + blk
+    if op == "jpeg_segment_length":
+        # one segment header of an embedded JPEG declares a length no segment can have (0, 1) or one that runs past the picture; which
+        # picture, which segment and which value is enumerated by the seed (first draw of the generator), not drawn at random
+        k = rng.randrange(1 << 16) if not isinstance(other, int) else other
+        spots = [m.start() for m in re.finditer(rb"\xff\xd8\xff[\xe0-\xef\xdb\xfe]", data)]
+        if not spots:
+            return byte_mutate(data, "zero", rng)
+        b = bytearray(data)
+        value = [b"\x00\x00", b"\x00\x01", b"\xff\xff"][k % 3]
+        hops = (k // 3) % 3
+        j = spots[(k // 9) % len(spots)] + 2
+        while hops and j + 4 <= n and b[j] == 0xFF and b[j + 1] not in (0xD8, 0xD9, 0xDA):
+            j += 2 + struct.unpack(">H", data[j + 2:j + 4])[0]
+            hops -= 1
+        if j + 4 <= n and b[j] == 0xFF:
+            b[j + 2:j + 4] = value
+        return bytes(b)
     if op == "picture_half_written":
         # an embedded picture that was only partly written: its signature and first segment / chunk are intact, the rest of the picture
         # (up to and including its end marker) is filler; every length, offset and record header around it stays valid
@@ -64,6 +81,16 @@ def byte_mutate(data: bytes, op: str, rng: random.Random, other: bytes = b"") ->
             return byte_mutate(data, "zero", rng)
         i, kind = rng.choice(spots)
         fill = rng.choice([0, 0, 0x55, 0x20])
+        if kind == "jpeg" and rng.random() < 0.4:
+            # or: one segment header of the picture declares a length no segment can have (0, 1) or one that runs past the picture
+            j = i + 2
+            hops = rng.randint(0, 3)
+            while hops and j + 4 <= n and b[j] == 0xFF and b[j + 1] not in (0xD8, 0xD9, 0xDA):
+                j += 2 + struct.unpack(">H", data[j + 2:j + 4])[0]
+                hops -= 1
+            if j + 4 <= n and b[j] == 0xFF:
+                b[j + 2:j + 4] = rng.choice([b"\x00\x00", b"\x00\x01", b"\x00\x02", b"\xff\xff"])
+            return bytes(b)
         if kind == "jpeg":
             seg_len = struct.unpack(">H", data[i + 4:i + 6])[0] if i + 6 <= n else 0
             start = min(n, i + 4 + seg_len) if rng.random() < 0.7 else min(n, i + 4 + seg_len + rng.randrange(0, 64))
